@@ -101,9 +101,10 @@ void UnicodePrinter::bvisit(const Complex &x)
         }
     }
     std::string str = s.str();
+    // the imaginary unit is 4 bytes wide, the multiplication dot 3
     std::size_t width = str.length() - 3;
     if (mul)
-        width--;
+        width -= 2;
     StringBox box(str, width);
     box_ = box;
 }
